@@ -120,8 +120,8 @@ def c04_b(ctx: Ctx):
         (SAVE, lambda fi, c: common.rename_call(ctx, fi, c) is not None and not _is_tilde(ctx, fi, common.rename_call(ctx, fi, c)[1])
             and not _is_tilde(ctx, fi, common.rename_call(ctx, fi, c)[0]) and canon(common.rename_call(ctx, fi, c)[0]) != "self.filename", {"EEXIST", "ENOTEMPTY"}, "rename of the job directory"),
         (MOVE, lambda fi, c: common.rename_call(ctx, fi, c) is not None, {"EEXIST", "ENOTEMPTY"}, "rename of the job directory"),
-        (CLONE, lambda fi, c: isinstance(c.func, ast.Name) and c.func.id == "copytree", {"EEXIST"}, "copytree into the new job directory"),
-        (IMPORT_COPY, lambda fi, c: isinstance(c.func, ast.Name) and c.func.id == "copytree", {"EEXIST"}, "copytree into the new job directory"),
+        (CLONE, lambda fi, c: common.callee_is(ctx, fi, c, ("copytree",)), {"EEXIST"}, "copytree into the new job directory"),
+        (IMPORT_COPY, lambda fi, c: common.callee_is(ctx, fi, c, ("copytree",)), {"EEXIST"}, "copytree into the new job directory"),
     ]
     for q, pred, required, desc in sites:
         fi = ctx.fn(q)
@@ -530,7 +530,7 @@ def c04_h(ctx: Ctx):
                 out.append(ctx.viol(R, fi, d, f"the destination handle is opened from {canon(v.args[0]) if v.args else '?'}, not from a copy of the source job's state point"))
             else:
                 out.append(ctx.viol(R, fi, d, f"the destination handle is {canon(v)[:60]}, not a job opened in the target project"))
-        prim = [c for c in body_nodes(fi) if isinstance(c, ast.Call) and ((isinstance(c.func, ast.Name) and c.func.id == "copytree") or common.ext_name(ctx, fi, c) in ("os.replace", "os.rename"))]
+        prim = [c for c in body_nodes(fi) if isinstance(c, ast.Call) and (common.callee_is(ctx, fi, c, ("copytree",)) or common.ext_name(ctx, fi, c) in ("os.replace", "os.rename"))]
         for c in prim:
             a = [canon(x) for x in c.args[:2]]
             want = ["job.path", dname + ".path"] if q == CLONE else ["self.path", dname + ".path"]
